@@ -1,5 +1,6 @@
 """Rules A1 (operand immutability) and A2 (header ownership) on top of the effects engine."""
-from .ast import pointee_is_const, pp, strip
+from .ast import pointee_is_const, pp, strip, int_value
+from .symbolic import FuncSym
 from .driver import RuleResult, Finding
 from .frontend import AnalysisBroken
 
@@ -112,6 +113,38 @@ def rule_A2(ctx, prog, label, rule='A2'):
         rr.ob(ok, dict(field=fld, mzd_init=a, mzd_init_window=b),
               Finding(rule, '%s|agree|%s' % (rule, fld), prog.func('mzd_init_window').loc, 'mzd_init_window',
                       'the constructors derive `%s` differently from the column count: mzd_init `%s` vs mzd_init_window `%s`' % (fld, a, b), {}, label))
+    # excess flag: a window is flagged exactly when its own column count is not a multiple of 64 - no further condition
+    # (mzd_is_dangerous_window, the only guard of the raw kernels, relies on it)
+    fw = prog.func('mzd_init_window')
+    fsw = FuncSym(fw)
+    rr.instances += 1
+    okf, whyf = False, 'no statement sets mzd_flag_nonzero_excess'
+    for n in fw.body.walk():
+        if n.kind in ('CompoundAssignOperator', 'BinaryOperator') and n.op in ('|=', '=') and 'mzd_flag_nonzero_excess' in pp(n.kids[1]):
+            l = strip(n.kids[0], casts=True)
+            if not (l.kind == 'MemberExpr' and l.name == 'flags'):
+                continue
+            ifs = fsw.enclosing(n, ('IfStmt',))
+            if ifs is None:
+                # unconditional (e.g. via ?: on high_bitmask) - accept the mzd_init idiom
+                okf, whyf = ('?' in pp(n.kids[1])), 'set unconditionally'
+                continue
+            c = strip(ifs.kids[0], casts=True)
+            if c.kind == 'BinaryOperator' and c.op == '!=' and int_value(c.kids[1]) == 0:
+                c = strip(c.kids[0], casts=True)
+            want = fsw.sym(fw.params[4]) if False else None
+            if c.kind == 'BinaryOperator' and c.op == '%' and int_value(c.kids[1]) == 64:
+                x = fsw.sym(c.kids[0])
+                from .symbolic import Lin
+                if x == Lin.atom('highc') - Lin.atom('lowc'):
+                    okf, whyf = True, 'guarded by (highc - lowc) % 64 != 0 only'
+                else:
+                    okf, whyf = False, 'guarded by `%s`, not by the window\'s own column count' % pp(ifs.kids[0])
+            else:
+                okf, whyf = False, 'guarded by `%s`: the flag must depend only on (highc - lowc) %% 64' % pp(ifs.kids[0])
+    rr.ob(okf, dict(obligation='excess flag of windows', verdict=whyf),
+          Finding(rule, '%s|flags|nonzero_excess' % rule, fw.loc, 'mzd_init_window',
+                  'mzd_init_window: mzd_flag_nonzero_excess is %s - a window whose last word holds foreign bits is then not recognised by mzd_is_dangerous_window' % whyf, {}, label))
     # rowstride: even in mzd_init, copied in mzd_init_window
     rs = {}
     for fn, n in writers.get('rowstride', []):
